@@ -390,6 +390,10 @@ def run(ctx):
     check_kvs(ctx, True)
     check_open_existing(ctx)
     check_apply(ctx)
+    # "opening an existing name ignores the options passed" presupposes that a name is created once: lookup and registration under one hold of the
+    # dictionary lock (the obligation of C12, part of this property as well: two racing creators would each install their own options)
+    from . import c12
+    c12.check_create_atomic(ctx)
     for o in ctx.obligations:
         ctx.samples.append(o.as_dict())
     return ctx.finish()
